@@ -286,15 +286,41 @@ func classOf(rs []rune) string {
 
 func ruleTFmt(c *Ctx) {
 	pk := c.P.Pkgs[modPath+"/bscript"]
-	writer := c.P.Func("bscript", "", "createBIP276")
+	// the writer is the text EncodeBIP276 returns, read through whatever helpers build it; the reader is DecodeBIP276
+	writer := c.P.Func("bscript", "", "EncodeBIP276")
 	reader := c.P.Func("bscript", "", "DecodeBIP276")
 	if writer == nil || reader == nil {
-		c.Undecided("T-fmt", "anchors", token.NoPos, "createBIP276 / DecodeBIP276 not found")
+		c.Undecided("T-fmt", "anchors", token.NoPos, "EncodeBIP276 / DecodeBIP276 not found")
 		return
 	}
-	verbs, format := writerPieces(writer)
+	pieces, okText := textReturned(writer, 0, "ERROR")
+	if !okText {
+		c.Undecided("T-fmt", "writer/format", writer.Pos(), "the text returned by EncodeBIP276 is not built from fmt.Sprintf with a constant format, hex.EncodeToString and concatenation (writer idiom not recognised)")
+		return
+	}
+	// payload pieces, then the checksum: eight hex digits of the first four bytes of SHA256d(payload)
+	var verbs []fmtVerb
+	format := ""
+	var payload []sxPiece
+	checksumOK := false
+	for i, p := range pieces {
+		switch p.kind {
+		case "lit":
+			format += p.text
+			payload = append(payload, p)
+		case "verb":
+			format += p.text
+			verbs = append(verbs, fmtVerb{p.text, p.field})
+			payload = append(payload, p)
+		case "hex":
+			checksumOK = i == len(pieces)-1 && p.b == "sha256d(bytes("+sxString(payload)+"))[0:4]"
+		}
+	}
+	c.Check(checksumOK, "T-fmt", "writer/checksum", writer.Pos(), "the text ends with the hex of the first four bytes of SHA256d over everything before it",
+		"the text returned by EncodeBIP276 does not end with hex(SHA256d(payload)[0:4]) of its own payload: "+shorten(sxString(pieces), 300))
+	bip276PayloadText = sxString(payload)
 	if len(verbs) == 0 {
-		c.Undecided("T-fmt", "writer/format", writer.Pos(), "the text returned by createBIP276 is not built from fmt.Sprintf with a constant format, hex.EncodeToString and concatenation (writer idiom not recognised)")
+		c.Undecided("T-fmt", "writer/format", writer.Pos(), "the text returned by EncodeBIP276 prints no field")
 		return
 	}
 	// regex pattern: the package-level regexp.MustCompile constant used by the reader
@@ -641,6 +667,10 @@ func resultDestField(call *ssa.Call) string {
 
 // checksumGuard: the reader's success return is dominated by the comparison of res[5]
 // with the checksum recomputed by the writer's own function.
+// bip276PayloadText: the writer's payload pieces as found by T-fmt on this run (compared with what the reader
+// recomputes the checksum over).
+var bip276PayloadText string
+
 func checksumGuard(c *Ctx, reader *ssa.Function) {
 	pe := pEngine(c)
 	pf := pe.pf(reader)
@@ -667,17 +697,20 @@ func checksumGuard(c *Ctx, reader *ssa.Function) {
 			isGroup5 := func(n *vn) bool {
 				return n.op == "load" && n.args[0].op == "indexaddr" && n.args[0].args[1].op == "const" && n.args[0].args[1].c != nil && n.args[0].args[1].c.ExactString() == "5"
 			}
-			isRecomputed := func(n *vn) bool {
-				return n.op == "extract" && n.name == "1" && n.args[0].op == "call" && strings.Contains(n.args[0].name, "createBIP276")
+			// the other side: the checksum text of the payload built from the decoded fields
+			isRecomputedV := func(v ssa.Value) bool {
+				e := &sxEnv{sub: map[ssa.Value]ssa.Value{}}
+				ps, ok := e.str(v)
+				return ok && len(ps) == 1 && ps[0].kind == "hex" && ps[0].b == "sha256d(bytes("+bip276PayloadText+"))[0:4]"
 			}
-			if (isGroup5(l) && isRecomputed(r)) || (isGroup5(r) && isRecomputed(l)) {
+			if (isGroup5(l) && isRecomputedV(bo.Y)) || (isGroup5(r) && isRecomputedV(bo.X)) {
 				taken := pr.Succs[0] == x
 				if (bo.Op == token.NEQ && !taken) || (bo.Op == token.EQL && taken) {
 					found = true
 				}
 			}
 		}
-		c.Check(found, "T-fmt", "checksum/guards-success", ret.Pos(), "success is reached only when the embedded checksum equals the checksum recomputed by createBIP276",
+		c.Check(found, "T-fmt", "checksum/guards-success", ret.Pos(), "success is reached only when the embedded checksum equals the checksum text recomputed over the decoded fields",
 			"DecodeBIP276 can succeed without comparing the embedded checksum with the recomputed one")
 	}
 }
